@@ -50,6 +50,40 @@ def small_alphabet_cases(variant, caps, depth):
             yield pre + " " + " ".join(s)
 
 
+def alias_alphabet(c):
+    """operations whose argument refers to the container itself: emplace(begin()+pos, v[k]) for every k relative to
+    pos, emplace_back/insert/push_back(v[k]), range insert / push_back of a sub-range of the same vector, v = v,
+    v = std::move(v)"""
+    A = ["ea,0,%d,%d" % (p, k) for p in range(c + 1) for k in range(c)]
+    A += ["%s,0,%d" % (n, k) for n in ("ba", "ia", "pa") for k in range(c)]
+    pairs = [(0, 0)] + [(a, a + 1) for a in range(c)] + [(a, a + 2) for a in range(c - 1)]
+    A += ["sr,0,%d,%d,%d" % (p, a, b) for p in range(c + 1) for (a, b) in pairs]
+    A += ["ps,0,%d,%d" % (a, b) for (a, b) in pairs]
+    A += ["as,0,0", "ma,0,0"]
+    return A
+
+
+def alias_cases(variant, caps, pair_caps, faults=False):
+    """from every fill level with pairwise distinct values: an aliasing operation followed / preceded by an ordinary
+    one, and (for the capacities in pair_caps) two aliasing operations in a row"""
+    follow = ["eb,0,9", "po,0", "er,0,0", "em,0,0,8"]
+    for c in caps:
+        A = alias_alphabet(c)
+        for n in range(c + 1):
+            pre = "%s nf,0,%d,%s" % (variant, c, lst(range(1, n + 1)))
+            for x in A:
+                if faults:
+                    for k in range(c + 2):
+                        yield "%s %s!%d %s" % (pre, x, k, follow[n % len(follow)])
+                    continue
+                for f in follow:
+                    yield "%s %s %s" % (pre, x, f)
+                    yield "%s %s %s" % (pre, f, x)
+                if c in pair_caps:
+                    for y in A:
+                        yield "%s %s %s" % (pre, x, y)
+
+
 def fault_cases(variant, caps, deep):
     """every operation that assigns elements x every fault position, from every fill level, then one more operation"""
     copyable = variant == "T"
@@ -94,13 +128,15 @@ class Ref:
             o[i] = None; return "D"
         if name in ("cp", "mv", "as", "ma"):
             j = a[1]
-            if o[j] is None or (name != "as" and i == j) or (name in ("as", "ma") and o[i] is None):
+            if o[j] is None or (name in ("cp", "mv") and i == j) or (name in ("as", "ma") and o[i] is None):
                 return "S"
             if o[j]["mf"]:
                 return "K"
-            o[i] = dict(cap=o[j]["cap"], l=list(o[j]["l"]), mf=False)
+            src = o[j]
+            o[i] = dict(cap=src["cap"], l=list(src["l"]), mf=False)
             if name in ("mv", "ma"):
-                o[j] = dict(cap=o[j]["cap"], l=[], mf=True)
+                # v = std::move(v) keeps its contents but is treated as moved-from by the comparison
+                o[j] = dict(cap=src["cap"], l=(list(src["l"]) if i == j else []), mf=True)
             return "D"
         if name == "la":
             if o[i] is None:
@@ -133,6 +169,32 @@ class Ref:
             if a[1] >= len(l):
                 return "R"
             del l[a[1]]; return "D"
+        if name == "ea":
+            if a[1] > c:
+                return "NA"
+            if a[2] >= len(l):
+                return "S"
+            if len(l) >= c or a[1] > len(l):
+                return "R"
+            l.insert(a[1], l[a[2]]); return "D"
+        if name in ("ba", "ia", "pa"):
+            if a[1] >= len(l):
+                return "S"
+            if len(l) >= c:
+                return "R"
+            l.append(l[a[1]]); return "D"
+        if name in ("sr", "ps"):
+            pos, x, y = (a[1], a[2], a[3]) if name == "sr" else (len(l), a[1], a[2])
+            if pos > c:
+                return "NA"
+            if not (x <= y <= len(l)):
+                return "S"
+            if pos > len(l):
+                return "R"
+            src = l[x:y]          # pre-state reading (the header differs when x < pos < y; irrelevant for sizes)
+            w = src[: c - pos]
+            l[pos:pos + len(w)] = w
+            return "D" if len(src) <= c - pos else "R"
         if name in ("ir", "il", "pr"):
             pos = len(l) if name == "pr" else a[1]
             if pos > c:
@@ -170,7 +232,8 @@ def random_case(rng, length, variant=None, malformed=0.03):
         val = rng.randint(1, 9)
         xs = [rng.randint(1, 9) for _ in range(rng.choice([0, 1, 1, 2, 2, 3, 4, 5]))]
         if bad:
-            name = rng.choice(["n", "nf", "nl", "cp", "mv", "as", "ma", "la", "at", "get", "em", "eb", "in", "im", "pb", "ir", "il", "pr", "po", "er", "de"])
+            name = rng.choice(["n", "nf", "nl", "cp", "mv", "as", "ma", "la", "at", "get", "em", "eb", "in", "im", "pb", "ir", "il", "pr", "po", "er", "de",
+                               "ea", "ba", "ia", "pa", "sr", "ps"])
         elif st is None or (st["mf"] and rng.random() < 0.8):
             # (re)create / assign
             cands = ["n"] + (["nf", "nl", "cp"] if copyable else []) + ["mv"]
@@ -179,7 +242,8 @@ def random_case(rng, length, variant=None, malformed=0.03):
             name = rng.choice(cands)
         else:
             cands = ["eb"] * 4 + ["im", "em", "em", "po", "er", "er", "at", "get", "mv", "ma", "n", "de"] + \
-                    (["in", "pb", "pr", "pr", "ir", "il", "cp", "as", "la", "nf", "nl"] if copyable else [])
+                    (["in", "pb", "pr", "pr", "ir", "il", "cp", "as", "la", "nf", "nl",
+                      "ea", "ea", "ea", "ba", "ia", "pa", "sr", "sr", "ps"] if copyable else [])
             name = rng.choice(cands)
         size = len(st["l"]) if st else 0
         cap = st["cap"] if st else 0
@@ -210,6 +274,15 @@ def random_case(rng, length, variant=None, malformed=0.03):
                 xs = xs[: max(0, cap - pos)]
         elif name == "er":
             a = [i, rng.randrange(size) if size and rng.random() < 0.8 else rng.randint(0, cap + 1)]
+        elif name == "ea":
+            a = [i, rng.randint(0, size) if rng.random() < 0.85 else rng.randint(0, cap + 1),
+                 rng.randrange(size) if size and rng.random() < 0.9 else rng.randint(0, cap + 1)]
+        elif name in ("ba", "ia", "pa"):
+            a = [i, rng.randrange(size) if size and rng.random() < 0.9 else rng.randint(0, cap + 1)]
+        elif name in ("sr", "ps"):
+            x = rng.randint(0, size)
+            y = rng.randint(x, size) if rng.random() < 0.9 else rng.randint(0, cap + 1)
+            a = ([i, rng.randint(0, size) if rng.random() < 0.85 else rng.randint(0, cap + 1), x, y] if name == "sr" else [i, x, y])
         else:
             raise ValueError(name)
         if bad and rng.random() < 0.3:
@@ -220,7 +293,7 @@ def random_case(rng, length, variant=None, malformed=0.03):
         has_list = name in LISTY
         ops.append(fmt(name, a, xs if has_list else None, plan))
         # follow the reference only when the step is certainly executed without fault; otherwise stop tracking precisely
-        if plan is None and all(x < NPOOL for x in a[:1]) and (copyable or name not in ("nf", "nl", "cp", "as", "la", "in", "pb", "ir", "il", "pr")) \
+        if plan is None and all(x < NPOOL for x in a[:1]) and (copyable or name not in ("nf", "nl", "cp", "as", "la", "in", "pb", "ir", "il", "pr", "ea", "ba", "ia", "pa", "sr", "ps")) \
                 and not (name in ("cp", "mv", "as", "ma") and a[1] >= NPOOL) and not (name in ("nl", "la", "il") and len(xs) > 5) \
                 and not (name == "get" and a[1] > 5):
             ref.step(name, a, xs)
@@ -241,6 +314,9 @@ def malformed_cases():
     yield "C n,0,1 mv,1,0 eb,0,1 at,0,0 po,0 er,0,0 em,0,0,1 cp,2,0 mv,2,0 as,1,0 ma,1,0 de,0 n,0,1 eb,0,1"
     yield "C n,0,1 mv,1,0 la,0,12 eb,0,1 mv,2,0 as,0,1 eb,0,1 mv,1,0 ma,0,2 n,0,2 mv,2,0 nf,0,1,1 mv,2,0 nl,0,1"
     yield "U n,0,2 eb,0,1 mv,1,0 ma,0,1!0 mv,2,0 em,2,0,3!0 em,2,0,3!1"
+    yield "C ea,0,0,0 n,0,2 ea,0,0,0 ba,0,0 sr,0,0,0,1 ps,0,0,1 eb,0,1 ea,0,0,1 ea,0,0,2 ea,0,3,0 ba,0,1 sr,0,0,1,0 sr,0,0,0,2 ps,0,1,2 ea,3,0,0"
+    yield "M n,0,2 eb,0,1 ea,0,0,0 ba,0,0 ia,0,0 pa,0,0 sr,0,0,0,1 ps,0,0,1 ma,0,0 eb,0,2 n,0,1"
+    yield "C n,0,2 eb,0,1 ma,0,0 eb,0,2 at,0,0 as,0,0 eb,0,2 as,0,0 ea,0,0,0"
 
 
 class VecCheck(Check):
